@@ -50,6 +50,11 @@ BASE = [
     B('MyBytes', ['MyBytes(nil)', 'MyBytes{9, 8}', 'MyBytes("ab")'], canon='main.MyBytes'),
     B('MyF', ['MyF(0)', 'MyF(2.5)', 'MyF(-1e9)'], canon='main.MyF'),
     B('MyI8', ['MyI8(0)', 'MyI8(-128)', 'MyI8(127)'], canon='main.MyI8'),
+    # two packages with the same package name declaring a type of the same name: reflect's String() is "x.Str" for both
+    B('xa.Str', ['xa.Str("")', 'xa.Str("pa")', 'xa.Str("from package a")'], canon='optgen/sa/x.Str'),
+    B('xb.Str', ['xb.Str("")', 'xb.Str("pb")', 'xb.Str("from package b")'], canon='optgen/sb/x.Str'),
+    B('[]xa.Str', ['nil', '[]xa.Str{"1"}', '[]xa.Str{"1", "2"}'], canon='[]optgen/sa/x.Str'),
+    B('[]xb.Str', ['nil', '[]xb.Str{"3"}', '[]xb.Str{"3", "4"}'], canon='[]optgen/sb/x.Str'),
     B('struct {\n\tA int8\n\tB int64\n}', ['struct {\n\tA int8\n\tB int64\n}{1, 2}', 'struct {\n\tA int8\n\tB int64\n}{-1, 5}', 'struct {\n\tA int8\n\tB int64\n}{}'], canon='struct { A int8; B int64 }'),
 ]
 BYGO = {t.go: t for t in BASE}
@@ -57,6 +62,7 @@ EMBEDDABLE_NAMED = ['MyStr', 'MyInt', 'MyF', 'MyI8', 'MyBytes']   # named non-st
 
 # near misses: focus types that must NOT be accepted for a field of the key type
 NEAR = {
+    'xa.Str': ['xb.Str', 'string', 'MyStr'], 'xb.Str': ['xa.Str', 'string'], '[]xa.Str': ['[]xb.Str', '[]byte'], '[]xb.Str': ['[]xa.Str'],
     'int': ['int64', 'uint64', 'uintptr', 'any'], 'int64': ['int', 'uint64', 'float64'], 'int32': ['MyInt', 'float32', 'uint16'],
     'MyInt': ['int32', 'int'], 'string': ['MyStr', '[]byte', 'any', '[2]string'], 'MyStr': ['string'], '[]byte': ['MyBytes', 'string', '[]int'],
     'MyBytes': ['[]byte'], 'float64': ['MyF', 'float32', 'int64', 'complex64'], 'MyF': ['float64'], 'int8': ['MyI8', 'uint8', 'bool'], 'MyI8': ['int8'],
@@ -228,6 +234,9 @@ import (
 	"verif/harness/common"
 	rt "verif/harness/optrt"
 
+	xa "optgen/sa/x"
+	xb "optgen/sb/x"
+
 	"github.com/fogfish/golem/hseq"
 	"github.com/fogfish/golem/optics"
 )
@@ -240,6 +249,8 @@ var (
 	_ unsafe.Pointer
 	_ = hseq.New[struct{}]
 	_ = optics.Morphism[int, int]
+	_ = xa.Str("")
+	_ = xb.Str("")
 )
 
 type (
